@@ -295,7 +295,8 @@ type rawBeh struct {
 	Pv   []string `json:"pv"`
 }
 
-func decodeBeh(raw string, kinds []Ev) (Behaviour, error) {
+func decodeBeh(raw string, p Plan) (Behaviour, error) {
+	kinds := p.Kinds
 	s, err := tlc.UnquoteTLA(raw)
 	if err != nil {
 		return Behaviour{}, err
@@ -311,7 +312,23 @@ func decodeBeh(raw string, kinds []Ev) (Behaviour, error) {
 	sort.Strings(rb.Tags)
 	sort.Strings(rb.Pv)
 	b := Behaviour{H: h, Tags: rb.Tags, Pv: rb.Pv}
-	b.Key = classKey(b)
+	// the once-kinds (odd classes) the history contains are part of its class
+	once := map[int]bool{}
+	for _, k := range p.Once {
+		once[k] = true
+	}
+	var used []string
+	for _, e := range rb.H {
+		if len(e) == 6 && e[0] == 0 {
+			for _, j := range []int{2, 4} {
+				if once[e[j]] {
+					used = append(used, fmt.Sprint(e[j]))
+				}
+			}
+		}
+	}
+	sort.Strings(used)
+	b.Key = classKey(b) + "|" + strings.Join(used, ",")
 	return b, nil
 }
 
@@ -338,7 +355,7 @@ func Generate(p Plan, workers int) (*Gen, error) {
 	}
 	g := &Gen{Plan: p, States: res.States, Distinct: res.Distinct, Wall: res.Wall.Seconds()}
 	for _, raw := range res.Tagged["CEX"] {
-		b, err := decodeBeh(raw, p.Kinds)
+		b, err := decodeBeh(raw, p)
 		if err != nil {
 			return nil, err
 		}
@@ -359,7 +376,7 @@ func Generate(p Plan, workers int) (*Gen, error) {
 			continue
 		}
 		seen[raw] = true
-		b, err := decodeBeh(raw, p.Kinds)
+		b, err := decodeBeh(raw, p)
 		if err != nil {
 			return nil, err
 		}
